@@ -42,7 +42,8 @@ deriving DecidableEq, Repr, Inhabited
 
 /-- what `Record.add_protocluster` → `Protocluster.add_cds` store in `_definition_cdses`: the CDSs
     within the protocluster's extent (`get_cds_features_within_location`) that lie inside its core and
-    carry a CORE gene function with the protocluster's product — for a sideloaded protocluster too -/
+    carry a CORE gene function whose product **equals** the protocluster's product (`core.product ==
+    self.product`: `NRPS` does not define an `NRPS-like` protocluster) — for a sideloaded protocluster too -/
 def storedDefs (loc core : Loc) (product : String) (genes : List Gene) : List Nat :=
   (genes.filter fun g =>
     locationContainsOther loc g.loc && locationContainsOther core g.loc && g.coreProducts.contains product).map (·.id)
